@@ -328,3 +328,5 @@ _quick("C15", "C15_textnum", "SET k to the decimal string of 0 / 7 / 10 / 99, th
 _quick("C18", "C18_willwindow", "connections A and B announce the same client id; A leaves two queued requests (key K held by B, key K2 held by a third connection) and closes; B releases K by a registered WILL_UNLOCK when it closes (or by an UNLOCK just before): A's first request is granted while B is closed but still registered; C announces the id, K2 is released: A's second reply reaches C", ["-witness", "2"], reach=["end", "will"])
 
 _quick("C05", "C05_unlockwait", "holder A and a queued request W; A unlocks with the unlock-then-wait flag (0x08), Timeout 3 s and an expiry in seconds / milliseconds / minutes; W is granted, A's re-queued request is answered TIMEOUT exactly once, in [T, T+2s], through the real per-second sweeps (a millisecond sweeper, if started, is run at its time)", ["-witness", "3"])
+
+_quick("C06", "C06_waitgrant", "a request with E = 3 s queued behind a holder whose hold ends 1..6 s later (by unlock or by its own expiry); the hold granted from the queue ends with exactly one EXPRIED in [grant + E, grant + E + 2 s], tick by tick through the real sweeps", ["-witness", "4"])
